@@ -395,6 +395,15 @@ macro_rules | `(tactic| pres_leaf) => `(tactic| with_reducible apply Pres.didSet
 theorem Pres.writeVar (v f isSet) : Pres FrameS (writeVar v f isSet) := by
   unfold Engine.writeVar; pres
 
+/-- dropping a `Var` handle touches `vars` and `deadVars` only -/
+theorem Pres.dropVarHandle (v) : Pres FrameS (dropVarHandle v) := by
+  unfold Engine.dropVarHandle; pres
+macro_rules | `(tactic| pres_leaf) => `(tactic| with_reducible apply Pres.dropVarHandle)
+/-- `withVarHandle v act` is `act` or a no-op -/
+theorem Pres.withVarHandle {R : State → State → Prop} [PreOrd R] (v) {act : M Unit}
+    (h : Pres R act) : Pres R (withVarHandle v act) := by
+  unfold Engine.withVarHandle; pres; exact h; exact h
+
 theorem Pres.handleAfterStabilisation (n) : Pres FrameS (handleAfterStabilisation n) := by
   unfold Engine.handleAfterStabilisation; pres
 macro_rules | `(tactic| pres_leaf) => `(tactic| with_reducible apply Pres.handleAfterStabilisation)
